@@ -161,14 +161,18 @@ end factor
 section solve
 variable {K : Type} [Zero K] [One K] [Add K] [Sub K] [Mul K] [Div K] [HasConj K]
 
-/-- `U z = y` by back substitution; `Ucol j` holds u_0j .. u_jj -/
-def backSolve (U : Array (Array K)) (y : Array K) : Array K :=
-  let n := U.size
-  (List.range n).reverse.foldl (fun (z : Array K) j =>
-    let uj := U.getD j #[]
-    let zj := z.getD j 0 / uj.getD j 0
-    let z := z.setIfInBounds j zj
-    (List.range j).foldl (fun (z : Array K) k => z.setIfInBounds k (z.getD k 0 - uj.getD k 0 * zj)) z) y
+/-- back substitution, last unknown first: `backSub U y n k = [z_{n-k}, …, z_{n-1}]` with
+`z_j = (y_j - Σ_{j' > j} U(j, j') z_j') / U(j, j)`; `U.getD j' #[]` is column `j'` of U -/
+def backSub (U : Array (Array K)) (y : Array K) (n : Nat) : Nat → List K
+  | 0 => []
+  | k + 1 =>
+    let zs := backSub U y n k
+    let j := n - (k + 1)
+    let s := (List.range k).foldl (fun (s : K) t => s - (U.getD (j + 1 + t) #[]).getD j 0 * zs.getD t 0) (y.getD j 0)
+    (s / (U.getD j #[]).getD j 0) :: zs
+
+/-- `U z = y` by back substitution -/
+def backSolve (U : Array (Array K)) (y : Array K) : Array K := (backSub U y U.size U.size).toArray
 
 /-- NOTRANS solve of `A x = b` with `Pr (A Pc) = L U`:
 forward elimination of `b` by the L columns (this applies `Pr` and `L⁻¹` at once), back
